@@ -2,6 +2,7 @@ package vharness
 
 import (
 	"fmt"
+	"sort"
 	"strings"
 
 	"github.com/goptics/varmq/internal/vrt"
@@ -262,6 +263,85 @@ func init() {
 					h.viol("C11", "C11.unacked-at-rest", fmt.Sprintf("at rest the adapter still holds %d pending and %d unacknowledged items", len(q.Ad.items), len(q.Ad.unacked)))
 				}
 				h.End()
+			},
+		})
+	}
+
+	// ---- custom-batch-purge: a batch on a user-supplied queue that has no Drain (Purge = Values snapshot, then the
+	// queue's Purge, then Close of the snapshot): an item of the snapshot may be dispatched before the close loop
+	// reaches it, its Close is then refused - and the batch's Wait still returns only when it has finished (C05, C08, C16)
+	for _, kp := range []kindPair{{Plain, Cust}, {ErrW, Cust}, {ResW, CustPrio}} {
+		kp := kp
+		Register(&Scenario{
+			Name:  name("custom-batch-purge/%s", kp),
+			Props: []string{"C05", "C08", "C16", "C10"},
+			Mode:  "NB", Quick: 2, Thorough: 3, Shards: 8,
+			Body: func(h *H) {
+				h.CrashProp = "C08"
+				h.HangProp = "C08"
+				w := h.NewWorker(kp.W, 1)
+				q := w.Bind(kp.Q, nil)
+				b := q.AddAll([]int{0, 1, 2}, nil)
+				go func() { q.Purge() }()
+				if b.Results != nil || b.Errs != nil {
+					go func() { h.ReadStream(b) }()
+				}
+				go func() { h.BatchWait(b) }()
+				h.NoRest = true
+				h.End()
+			},
+		})
+	}
+
+	// ---- rr-pause: RoundRobin over two queues with a Pause / Resume landing anywhere in the dispatcher's round:
+	// with concurrency 1 and everything pending from the start the jobs still run a1 b1 a2 b2 (C15, C09)
+	for _, op := range []string{"Pause", "PauseAndWait", "Restart"} {
+		op := op
+		Register(&Scenario{
+			Name:  name("rr-pause/%s", op),
+			Props: []string{"C15", "C09", "C01"},
+			Mode:  "NB", Quick: 2, Thorough: 3, Shards: 8,
+			Body: func(h *H) {
+				w := h.NewWorker(Plain, 1)
+				qa := w.Bind(Fifo, nil)
+				qb := w.Bind(Prio, nil)
+				w.PauseAndWait()
+				qa.Add(0, AddOpt{})
+				qb.Add(1, AddOpt{})
+				qa.Add(2, AddOpt{})
+				qb.Add(3, AddOpt{})
+				w.Resume()
+				go func() {
+					switch op {
+					case "Pause":
+						w.Pause()
+					case "PauseAndWait":
+						w.PauseAndWait()
+					default:
+						w.Restart()
+					}
+				}()
+				h.Quiesce(true)
+				if w.Wk.IsPaused() {
+					w.Resume()
+				}
+				h.End()
+				type st struct{ tag, at int }
+				var got []st
+				for _, jr := range h.Jobs {
+					if len(jr.Starts) == 1 {
+						got = append(got, st{jr.Tag, jr.Starts[0]})
+					}
+				}
+				sort.Slice(got, func(i, j int) bool { return got[i].at < got[j].at })
+				if len(got) == 4 {
+					for i, g := range got {
+						if g.tag != i {
+							h.viol("C15", "C15.roundrobin-order", "RoundRobin over two queues with everything pending from the start did not run the jobs a b a b (a pause or restart landed in the dispatcher's round)")
+							break
+						}
+					}
+				}
 			},
 		})
 	}
